@@ -375,6 +375,11 @@ func genParseStructured(entry string, tier string, rng *rand.Rand, emit emitter)
 					emit(parseOp(entry, append([]byte{}, full[:k]...), poison(rng)))
 				}
 			}
+			// (b'') the valid frame followed by more bytes, its header untouched (a read that already holds the start of the
+			// next packet): the entry point was given more than the frame
+			for _, extra := range []int{1, 2, 3, 9, len(full)} {
+				emit(parseOp(entry, append(append([]byte{}, full...), rbytes(rng, extra)...), poison(rng)))
+			}
 			// (c) single mutations of the valid frame
 			for m := 0; m < 12; m++ {
 				d := append([]byte{}, full...)
@@ -661,6 +666,13 @@ func genC02(tier string, rng *rand.Rand, shard, nshards int, emit emitter) {
 						for _, e := range respEntries(fr, fc) {
 							emit(parseOp(e, d, poison(rng)))
 						}
+						if delta == 0 && bc%8 == 3 {
+							// the well-formed frame followed by more bytes, its header untouched: longer than its fields say
+							long := append(append([]byte{}, d...), rbytes(rng, 1+rng.Intn(4))...)
+							for _, e := range respEntries(fr, fc) {
+								emit(parseOp(e, long, poison(rng)))
+							}
+						}
 					}
 				}
 			}
@@ -868,6 +880,10 @@ func genC03(tier string, rng *rand.Rand, shard, nshards int, emit emitter) {
 		// that counts is the last two bytes of what was handed in
 		for _, tail := range [][]byte{rbytes(rng, 1), rbytes(rng, 2), rbytes(rng, 3), rbytes(rng, 4), f[:1], f, {0, 0}, {0xFF, 0xFF}} {
 			emit(parseOp(ents[fi], append(append([]byte{}, f...), tail...), poison(rng)))
+		}
+		// noise in front of a correctly checksummed frame
+		for _, head := range [][]byte{{0}, {0, 0}, {0xFF}, {f[0]}, rbytes(rng, 1)} {
+			emit(parseOp(ents[fi], append(append([]byte{}, head...), f...), poison(rng)))
 		}
 		// corrupt the body, keep the trailer
 		for k := 0; k < 40; k++ {
